@@ -115,9 +115,6 @@ const M: f64 = 256.0;
 // The correction factor, 'α' from the paper for k=8,M=256
 const ALPHA: f64 = 0.7213 / (1.0 + 1.079 / M);
 
-// 2^32 as a floating point number
-const TWO32: f64 = 4_294_967_296.0;
-
 // HyperLogLog++ Threshold, when to switch from linear counting for M=256 (k=8)
 #[allow(dead_code)]
 const THRESHOLD: f64 = 220.0;
@@ -129,10 +126,12 @@ fn estimate_hyperloglog(sum: f64, zero_count: usize) -> f64 {
         if zero_count != 0 {
             estimate = M * (M / (zero_count as f64)).ln(); // linear
         }
-    } else if estimate > (1.0 / 30.0) * TWO32 {
-        // 143165576
-        estimate = -TWO32 * (1.0 - estimate / TWO32).log2();
-    };
+    }
+    // No large-range correction: the paper's `-2^32 * ln(1 - E/2^32)` compensates for
+    // collisions of a 32-bit hash, but our registers count zero bits over up to 248 bits
+    // of a 256-bit id, so there is nothing to compensate (applied, it inflated every
+    // estimate above 2^32/30 by ~45% and more, and turned raw estimates of 2^32 and
+    // beyond into NaN or infinity).
     estimate
 }
 
